@@ -84,6 +84,8 @@ PROP = {
                       "(any list of text/binary messages with payload <= max and <= caller buffer, any fragmentation into >= 1 fragments "
                       "including empty ones, any placement of Ping/Pong frames in front of fragments and after the last message), EVERY "
                       "segmentation of the resulting byte stream into transport reads (any split point, inside headers and length fields) "
+                      "- transport reads of zero bytes included, which tie D also executes (`cut 0`); C06_segments_flatten: the harness's "
+                      "segmentation concatenates to the stream, so the theorems' hypothesis holds for every script - "
                       "and every buffer capacity the Go runtime may choose: the message API, blocking or asynchronous, delivers exactly the "
                       "message list - each once, in order, same type, byte-identical payload, n = payload length - then reports that the "
                       "transport has nothing more; the frame API delivers exactly the frame list; the control callback receives exactly the "
